@@ -106,7 +106,7 @@ fn seq_containers(w: &World, ri: usize) -> Vec<(Vec<String>, char, String, u32)>
     let txn = w.reps[ri].doc.transact();
     let mut out = Vec::new();
     if let Some(t) = txn.get_text("t") {
-        let n = t.get_string(&txn).chars().count() as u32;
+        let n = World::text_units(&txn, &t);
         out.push((vec!["t".to_string()], 't', "t|".to_string(), n));
     }
     if let Some(a) = txn.get_array("a") {
@@ -253,7 +253,7 @@ fn do_quote(w: &mut World, qs: &mut QState, st: &Value) -> Value {
         let mut txn = doc.transact_mut();
         let target = nav(w, &txn, &path)?;
         let (kind, n) = match &target {
-            Out::YText(t) => ('t', t.get_string(&txn).chars().count() as u32),
+            Out::YText(t) => ('t', World::text_units(&txn, t)),
             Out::YArray(a) => ('a', a.len(&txn)),
             _ => return Err("source is not a sequence".into()),
         };
@@ -263,20 +263,50 @@ fn do_quote(w: &mut World, qs: &mut QState, st: &Value) -> Value {
         if n == 0 {
             return Err("source has no visible unit".into());
         }
-        let (su, i, si, eu, j, ei) = match st["sel"].as_u64() {
-            Some(sel) => {
-                let all = ranges(n, degenerate);
-                all[(sel % all.len() as u64) as usize]
-            }
-            None => (
-                st["su"].as_bool().unwrap_or(false),
-                st["i"].as_u64().unwrap_or(0) as u32,
-                st["si"].as_bool().unwrap_or(true),
-                st["eu"].as_bool().unwrap_or(false),
-                st["j"].as_u64().unwrap_or(0) as u32,
-                st["ei"].as_bool().unwrap_or(true),
-            ),
+        // a bound names an ELEMENT of the source: for a text a whole character (1 or 2 UTF-16 units).  The unit recorded
+        // for a bound is the character's first unit where the range begins with / ends before the character, its last
+        // unit where it begins behind / ends with it; the API gets the character's offset in the document's offset kind.
+        let layout = match &target {
+            Out::YText(t) => Some(w.text_layout(&txn, t)),
+            _ => None,
         };
+        // element index -> (first unit, last unit, API offset)
+        let elem = |e: u32| -> (u32, u32, u32) {
+            match &layout {
+                Some(l) => {
+                    let (mut u, mut a) = (0u32, 0u32);
+                    for (k, (wu, wa)) in l.iter().enumerate() {
+                        if k as u32 == e {
+                            return (u, u + wu - 1, a);
+                        }
+                        u += wu;
+                        a += wa;
+                    }
+                    (u, u, a)
+                }
+                None => (e, e, e),
+            }
+        };
+        // (without `wide` every character is one unit and the historical count `n` -- characters of the string -- is kept)
+        let nelem = if w.wide { layout.as_ref().map(|l| l.len() as u32).unwrap_or(n) } else { n };
+        // (su, (first unit, last unit, API offset) of the start element, si, eu, the same for the end element, ei)
+        let (su, bi, si, eu, bj, ei) = match st["sel"].as_u64() {
+            Some(sel) => {
+                let all = ranges(nelem, degenerate);
+                let (su, i, si, eu, j, ei) = all[(sel % all.len() as u64) as usize];
+                (su, elem(i), si, eu, elem(j), ei)
+            }
+            None => {
+                let i = st["i"].as_u64().unwrap_or(0) as u32;
+                let j = st["j"].as_u64().unwrap_or(0) as u32;
+                let (bi, bj) = match &layout {
+                    Some(l) => (w.char_at(l, i), w.char_at(l, j)),
+                    None => ((i, i, i), (j, j, j)),
+                };
+                (st["su"].as_bool().unwrap_or(false), bi, st["si"].as_bool().unwrap_or(true), st["eu"].as_bool().unwrap_or(false), bj, st["ei"].as_bool().unwrap_or(true))
+            }
+        };
+        let (i, j) = (if si { bi.0 } else { bi.1 }, if ei { bj.1 } else { bj.0 });
         resolved.0 = su;
         resolved.1 = i;
         resolved.2 = si;
@@ -286,10 +316,12 @@ fn do_quote(w: &mut World, qs: &mut QState, st: &Value) -> Value {
         if (!su && i >= n) || (!eu && j >= n) {
             return Err("range outside the source".into());
         }
-        let (oi, oj) = match &target {
-            Out::YText(t) => (w.unit_offset(&txn, t, i), w.unit_offset(&txn, t, j)),
-            _ => (i, j),
-        };
+        // the API offset of a bound: a bytes document addresses a character by the offset of its first byte (any other
+        // offset is not a character boundary); a UTF-16 document addresses code units, so a bound that takes the character
+        // on its far side (exclusive start, inclusive end) names the character's LAST unit - never half a pair
+        let utf16 = w.offset == yrs::OffsetKind::Utf16;
+        let oi = if utf16 && !si { bi.2 + (bi.1 - bi.0) } else { bi.2 };
+        let oj = if utf16 && ei { bj.2 + (bj.1 - bj.0) } else { bj.2 };
         let range: (Bound<u32>, Bound<u32>) = (
             if su { Bound::Unbounded } else if si { Bound::Included(oi) } else { Bound::Excluded(oi) },
             if eu { Bound::Unbounded } else if ei { Bound::Included(oj) } else { Bound::Excluded(oj) },
@@ -523,7 +555,7 @@ fn deref_one(w: &World, ri: usize, hd: &Handle) -> Value {
                 let ids: Vec<Id> = match hd.kind {
                     't' => {
                         let t: WeakRef<TextRef> = WeakRef::from(wr);
-                        t.get_string(&txn).chars().map(|c| w.tags.of_char(c)).collect()
+                        w.tags.of_str(&t.get_string(&txn))
                     }
                     'a' => {
                         let a: WeakRef<ArrayRef> = WeakRef::from(wr);
